@@ -5,6 +5,7 @@
    accessors of Impl/VolMem.v;  model_step/heap_after run one operation / a history on the model
    (Suite/C04.v);  ok_C04 is the executable checker written from the property text (Spec/C04.v). *)
 From VM Require Import Prelude.MachInt Prelude.Outcome Impl.VolMem Spec.C04 Suite.C04 Proofs.C04.
+From VM Require Impl.CopyPlan Spec.C06 Proofs.LinkVolMemCopyPlan.
 
 (* the implementation model satisfies the executable spec checker on every well-formed case:
    any container kind, build mode, base address, margins, container size, initial contents and
@@ -116,3 +117,56 @@ Print Assumptions C04_slice_forms_all_or_error.
 Print Assumptions C04_array_copy_to_count.
 Print Assumptions C04_slice_copy_to_count.
 Print Assumptions C04_routes_agree.
+
+(* ---------------------------------------------------------------------------------------------
+   LINK to C06 (Proofs/LinkVolMemCopyPlan.v).  The model above treats copy_slice as memcpy on the
+   heap byte list.  C06 transcribes the real copy_slice as a plan of primitive accesses and proves
+   that executing a plan on a byte memory (address -> byte) is memcpy.  Joined here:
+   [image base l mm] = the byte memory mm holds the byte list l at host address base;
+   [run_plan p mm] = C06's execution of plan p; [placed] = heap and caller's buffer are two
+   non-null, non-wrapping, disjoint allocations and the slice lies inside the heap. *)
+
+(* Bytes::write: whenever the model stores n bytes of a non-empty buffer, the real copy_slice has a
+   plan (it never panics) for exactly the pointers involved - destination hb + slice + addr inside
+   the heap, source the buffer - and count n, and running that plan on ANY byte memory holding
+   heap and buffer yields a memory holding the model's resulting heap; the buffer is unchanged *)
+Theorem C04_write_is_copy_plan : forall md hb h s buf addr bp mm h' n,
+  LinkVolMemCopyPlan.placed hb h s bp buf -> 0 < len buf ->
+  LinkVolMemCopyPlan.image hb h mm -> LinkVolMemCopyPlan.image bp buf mm ->
+  vs_write hb h s buf addr = (h', Ok n) ->
+  exists p, CopyPlan.copy_slice md (hb + (vs_addr s + addr)) bp n = Val p /\
+            LinkVolMemCopyPlan.image hb h' (LinkVolMemCopyPlan.run_plan p mm) /\
+            LinkVolMemCopyPlan.image bp buf (LinkVolMemCopyPlan.run_plan p mm) /\
+            n = N.min (vs_size s - addr) (len buf) /\ addr < vs_size s.
+Proof. exact LinkVolMemCopyPlan.vs_write_is_plan_lemma. Qed.
+
+(* Bytes::read: the plan runs from the heap to the buffer; the heap is unchanged *)
+Theorem C04_read_is_copy_plan : forall md hb h s buf addr bp mm b' n,
+  LinkVolMemCopyPlan.placed hb h s bp buf -> 0 < len buf ->
+  LinkVolMemCopyPlan.image hb h mm -> LinkVolMemCopyPlan.image bp buf mm ->
+  vs_read hb h s buf addr = (b', Ok n) ->
+  exists p, CopyPlan.copy_slice md bp (hb + (vs_addr s + addr)) n = Val p /\
+            LinkVolMemCopyPlan.image bp b' (LinkVolMemCopyPlan.run_plan p mm) /\
+            LinkVolMemCopyPlan.image hb h (LinkVolMemCopyPlan.run_plan p mm) /\
+            n = N.min (vs_size s - addr) (len buf) /\ addr < vs_size s.
+Proof. exact LinkVolMemCopyPlan.vs_read_is_plan_lemma. Qed.
+
+(* the two copy helpers themselves, for any destination slice / count (every accessor of the
+   model that moves bytes goes through one of them) *)
+Theorem C04_copy_helpers_are_copy_plans : forall md hb h s buf total bp p mm,
+  Spec.C06.valid_ptr bp total -> Spec.C06.valid_ptr (hb + vs_addr s) total ->
+  bp + len buf <= hb \/ hb + len h <= bp -> total <= len buf -> vs_addr s + total <= len h ->
+  LinkVolMemCopyPlan.image hb h mm -> LinkVolMemCopyPlan.image bp buf mm ->
+  (CopyPlan.copy_slice md (hb + vs_addr s) bp total = Val p ->
+     LinkVolMemCopyPlan.image hb (fst (copy_to_volatile_slice h s buf total)) (LinkVolMemCopyPlan.run_plan p mm) /\
+     LinkVolMemCopyPlan.image bp buf (LinkVolMemCopyPlan.run_plan p mm) /\
+     snd (copy_to_volatile_slice h s buf total) = total) /\
+  (CopyPlan.copy_slice md bp (hb + vs_addr s) total = Val p ->
+     LinkVolMemCopyPlan.image bp (fst (copy_from_volatile_slice h buf s total)) (LinkVolMemCopyPlan.run_plan p mm) /\
+     LinkVolMemCopyPlan.image hb h (LinkVolMemCopyPlan.run_plan p mm) /\
+     snd (copy_from_volatile_slice h buf s total) = total).
+Proof. exact LinkVolMemCopyPlan.copy_helpers_lemma. Qed.
+
+Print Assumptions C04_write_is_copy_plan.
+Print Assumptions C04_read_is_copy_plan.
+Print Assumptions C04_copy_helpers_are_copy_plans.
